@@ -33,7 +33,10 @@ import vlib
 
 PROP = "C20"
 CELL = F(1, 120)
-TOL = F(1, 10 ** 6)            # in cells: float rounding of the index division
+TOL_ULPS = 4                   # accepted deviation of a block edge, in ulps of the shifted edge value (90 - lat, lon + 180)
+CENTRE_TOL = F(1, 10 ** 6)     # in cells: returned float centres vs exact lattice centres
+DL = 50.0 / 6000               # the harness' own copy of the cell size in doubles
+SIG_DEGENERATE = "srtm-rect-below-double-resolution"
 NROWS, NCOLS = 18000, 43200    # global lattice 90N..60S, 180W..180E
 TH, TW = 6000, 4800
 
@@ -63,33 +66,63 @@ def pix(R, C):
     return (R * 7 + C * 13) % 30000
 
 
-class SynthTile:
-    """stands for the 6000 x 4800 array of one tile; only boolean-mask indexing is supported"""
+FILE_BYTES = TH * TW * 2       # a real .DEM file: 6000 x 4800 big-endian int16, row-major
 
-    def __init__(self, name):
+
+class LazyTile:
+    """The content of one `<NAME>.DEM` file seen through the dtype and shape the code under test
+    asked for.  The file's bytes are DEFINED as the big-endian int16 encoding of
+    `(global_row*7 + global_col*13) % 30000` in row-major order (as the real files are laid out);
+    only the bytes of the cells selected by a boolean mask are ever materialised, then decoded
+    with the requested dtype -- so a wrong byte order, item size or shape changes the values."""
+
+    def __init__(self, name, dtype, shape):
         self.name = name
         self.R0, self.C0 = name_offsets(name)
-        self.shape = (TH, TW)
+        self.dtype = np.dtype(dtype)
+        self.shape = tuple(int(x) for x in shape)
+        self.ndim = len(self.shape)
+
+    def _decode(self, flat):
+        isz = self.dtype.itemsize
+        off = flat.astype(np.int64)[:, None] * isz + np.arange(isz, dtype=np.int64)[None, :]
+        el = off // 2                                     # int16 element of the file holding that byte
+        r, c = np.divmod(el, TW)
+        val = pix(r + self.R0, c + self.C0)
+        byte = np.where(off % 2 == 0, val >> 8, val & 255).astype(np.uint8)
+        return np.ascontiguousarray(byte).view(self.dtype).reshape(-1)
 
     def __getitem__(self, mask):
         mask = np.asarray(mask)
-        if mask.dtype != bool or mask.shape != (TH, TW):
-            raise vlib.InfraError(f"synthetic tile indexed with {mask.dtype} {mask.shape}")
-        r, c = np.nonzero(mask)
-        return pix(r.astype(np.int64) + self.R0, c.astype(np.int64) + self.C0).astype(">i2")
+        if mask.dtype != bool:
+            raise vlib.InfraError(f"synthetic tile: only boolean-mask indexing is supported, got {mask.dtype}")
+        if mask.shape != self.shape:      # what numpy raises for a real array
+            raise IndexError(f"boolean index did not match indexed array; dimension is {self.shape} "
+                             f"but corresponding boolean dimension is {mask.shape}")
+        return self._decode(np.ravel_multi_index(np.nonzero(mask), self.shape))
 
     def ravel(self):
         raise vlib.InfraError("synthetic tile: ravel not supported")
 
 
-class FakeFlat:
-    def __init__(self, name):
-        self.name = name
+class LazyFlat:
+    """result of np.fromfile(path, dtype): a 1-d array of file_size // itemsize items"""
 
-    def reshape(self, h, w):
-        if (h, w) != (TH, TW):
-            raise vlib.InfraError(f"unexpected reshape {(h, w)}")
-        return SynthTile(self.name)
+    def __init__(self, name, dtype, nbytes):
+        self.name = name
+        self.dtype = np.dtype(dtype)
+        self.size = nbytes // self.dtype.itemsize
+        self.shape = (self.size,)
+
+    def reshape(self, *shape):
+        if len(shape) == 1 and not isinstance(shape[0], (int, np.integer)):
+            shape = tuple(shape[0])
+        n = 1
+        for x in shape:
+            n *= int(x)
+        if n != self.size:                # what numpy raises
+            raise ValueError(f"cannot reshape array of size {self.size} into shape {tuple(shape)}")
+        return LazyTile(self.name, self.dtype, shape)
 
 
 class NpProxy:
@@ -102,12 +135,14 @@ class NpProxy:
     def __getattr__(self, k):
         return getattr(np, k)
 
-    def fromfile(self, path, dtype=None, **kw):
+    def fromfile(self, path, dtype=float, count=-1, sep="", offset=0, **kw):
+        if count != -1 or sep != "" or offset != 0 or kw:
+            raise vlib.InfraError("synthetic fromfile: count/sep/offset not supported")
         if not os.path.exists(path):
             raise FileNotFoundError(path)
         base = os.path.basename(path)
         self._env.reads.append(base)
-        return FakeFlat(base[:-4].lower())
+        return LazyFlat(base[:-4].lower(), dtype, os.path.getsize(path))
 
 
 class Env:
@@ -127,9 +162,14 @@ class Env:
 
         def fake_download(name):
             env.downloads.append(name)
-            open(os.path.join(env.dir, (name + ".dem").upper()), "wb").close()
+            env.make_file(name)
 
         topo.SRTM30.download_tile = staticmethod(fake_download)
+
+    def make_file(self, name):
+        """a sparse file of the size of a real .DEM (its content is defined by LazyTile)"""
+        with open(os.path.join(self.dir, (name + ".dem").upper()), "wb") as f:
+            f.truncate(FILE_BYTES)
 
     def cached(self):
         return sorted(f[:-4].lower() for f in os.listdir(self.dir) if f.endswith(".DEM"))
@@ -158,16 +198,25 @@ def lon_index(x):
     return (F(x) + 180) * 120
 
 
+def edge_tol(x, is_lat):
+    """Interpretation of the property for doubles: the code computes `90 - lat` / `lon + 180`
+    (one rounding, <= 1/2 ulp of that shifted value) and divides by `_dlat` (one more rounding of
+    the index).  A block edge may therefore deviate from the exact one by at most TOL_ULPS ulps of
+    the shifted value (<= 4 * 5.7e-14 deg = 2.7e-11 cell).  Returned in degrees (exact)."""
+    shift = (90.0 - float(x)) if is_lat else (float(x) + 180.0)
+    return TOL_ULPS * F(math.ulp(max(abs(shift), 1e-300)))
+
+
 def edge_candidates(x, is_lat):
-    """exact value of the double `x`, plus the grid line it is within TOL cells of (if any and
-    if it is not exactly on it)"""
+    """exact value of the double `x`; if it is within edge_tol of a grid line (and not exactly on
+    it) also the values on the line and just on either side of it: the double computation may
+    land on any of them"""
     e = lat_index(x) if is_lat else lon_index(x)
     n = round(e)
     q = F(x)
-    if e != n and abs(e - n) < TOL:
-        # the double computation may land on the line or on either side of it
+    d = edge_tol(x, is_lat)
+    if e != n and abs(e - n) * CELL <= d:
         snapped = 90 - F(n, 120) if is_lat else F(n, 120) - 180
-        d = TOL * CELL
         lo, hi = (-60, 90) if is_lat else (-180, 180)
         return [q] + [c for c in (snapped, snapped - d, snapped + d) if lo <= c <= hi and c != q]
     return [q]
@@ -192,12 +241,38 @@ def rect_of(case):
 def classify(case, what=""):
     if "aligned" in what:
         return "srtm-float-aligned-index"
-    if "rect" in case:
-        la0, lo0, la1, lo1 = (F(float.fromhex(h)) for h in case["rect"])
-        if min(la1 - la0, lo1 - lo0) < TOL * CELL:
-            # a rectangle thinner than 1e-6 cell: the double index division cannot resolve it
-            return "srtm-rect-below-double-resolution"
     return "other"
+
+
+def known_degenerate(rect, exc):
+    """the KNOWN finding, and nothing else: the failure is numpy's ValueError for min() of an
+    empty array, some extent of the rectangle is below 1e-9 cell, and in that dimension both
+    edges evaluate to the SAME double index (so the code cannot tell them apart)"""
+    if not (isinstance(exc, ValueError) and "zero-size array" in str(exc)):
+        return False
+    la0, lo0, la1, lo1 = (float(x) for x in rect)
+    lim = CELL / 10 ** 9
+    lat_deg = F(la1) - F(la0) < lim and (90 - la1) / DL == (90 - la0) / DL
+    lon_deg = F(lo1) - F(lo0) < lim and (lo0 + 180.0) / DL == (lo1 + 180.0) / DL
+    return lat_deg or lon_deg
+
+
+def guarded(ck, fn, case, what, rect=None):
+    """(True, fn()) -- or (False, None) after recording a violation when the exception was raised
+    from inside typhon (valid inputs must not raise); harness errors propagate (exit 2)"""
+    try:
+        return True, fn()
+    except (SystemExit, vlib.InfraError):
+        raise
+    except Exception as e:
+        if rect is not None and known_degenerate(rect, e):
+            ck.violation(SIG_DEGENERATE, f"{what} raised {type(e).__name__}: {e}", case)
+            return False, None
+
+        def again():
+            raise e
+        ck.guard(again, case, what)          # re-raises unless a frame of /repo/typhon is in the traceback
+        return False, None
 
 
 def oracle_tiles(q):
@@ -212,7 +287,7 @@ def lattice_rows(lats):
     for v in lats:
         e = lat_index(float(v)) - F(1, 2)
         n = round(e)
-        if abs(e - n) > TOL:
+        if abs(e - n) > CENTRE_TOL:
             return None
         out.append(n)
     return out
@@ -223,7 +298,7 @@ def lattice_cols(lons):
     for v in lons:
         e = lon_index(float(v)) - F(1, 2)
         n = round(e)
-        if abs(e - n) > TOL:
+        if abs(e - n) > CENTRE_TOL:
             return None
         out.append(n)
     return out
@@ -252,25 +327,32 @@ def oracle_elev(ck, rect, lats, lons, E, case):
         return None
     top, bot = 90 - R[0] * CELL, 90 - (R[-1] + 1) * CELL
     left, right = -180 + C[0] * CELL, -180 + (C[-1] + 1) * CELL
-    tol = TOL * CELL
+    t_n, t_s = edge_tol(rect[2], True), edge_tol(rect[0], True)
+    t_w, t_e = edge_tol(rect[1], False), edge_tol(rect[3], False)
     snap = False
-    for nm, ok_exact, ok_tol in [
-        ("north edge below lat_max", top >= la1, top >= la1 - tol),
-        ("south edge above lat_min", bot <= la0, bot <= la0 + tol),
-        ("west edge right of lon_min", left <= lo0, left <= lo0 + tol),
-        ("east edge left of lon_max", right >= lo1, right >= lo1 - tol),
-        ("extends a cell or more north", top - la1 < CELL, top - la1 < CELL + tol),
-        ("extends a cell or more south", la0 - bot < CELL, la0 - bot < CELL + tol),
-        ("extends a cell or more west", lo0 - left < CELL, lo0 - left < CELL + tol),
-        ("extends a cell or more east", right - lo1 < CELL, right - lo1 < CELL + tol),
+    for nm, slack, tol in [
+        # slack >= 0 means the exact statement holds; otherwise -slack is the deviation in degrees
+        ("north edge below lat_max", top - la1, t_n),
+        ("south edge above lat_min", la0 - bot, t_s),
+        ("west edge right of lon_min", lo0 - left, t_w),
+        ("east edge left of lon_max", right - lo1, t_e),
+        ("extends a cell or more north", CELL - (top - la1), t_n),
+        ("extends a cell or more south", CELL - (la0 - bot), t_s),
+        ("extends a cell or more west", CELL - (lo0 - left), t_w),
+        ("extends a cell or more east", CELL - (right - lo1), t_e),
     ]:
-        if not ok_tol:
-            bad(f"block rows {R[0]}..{R[-1]} cols {C[0]}..{C[-1]}: {nm}")
+        strict = nm.startswith("extends")
+        exact_ok = slack > 0 if strict else slack >= 0
+        if exact_ok:
+            continue
+        if -slack > tol:
+            bad(f"block rows {R[0]}..{R[-1]} cols {C[0]}..{C[-1]}: {nm} (by {float(-slack):.3g} deg)")
             return None
-        if not ok_exact:
-            snap = True
+        snap = True
+        dev = float(-slack / (tol / TOL_ULPS))
+        ck.extra_cov["max_accepted_edge_deviation_ulps"] = max(ck.extra_cov.get("max_accepted_edge_deviation_ulps", 0.0), round(dev, 3))
     if snap:
-        ck.count("oracle/edge-within-1e-6-cell-of-grid-line")
+        ck.count("oracle/edge-accepted-within-4ulp-of-shifted-value")
     E = np.asarray(E)
     if E.shape != (len(R), len(C)):
         bad(f"elevation shape {E.shape} != ({len(R)}, {len(C)})")
@@ -286,26 +368,23 @@ def oracle_elev(ck, rect, lats, lons, E, case):
 
 
 # ---------------------------------------------------------------- one elevation case
-def run_elev_real(env, rect):
+def run_elev_real(ck, env, rect, case):
     env.downloads.clear()
     env.reads.clear()
     before = env.cached()
-    try:
-        lats, lons, E = env.S.elevation(*rect)
-    except vlib.InfraError:
-        raise
-    except Exception as e:
-        return dict(error=f"{type(e).__name__}: {e}", before=before)
+    ok, res = guarded(ck, lambda: env.S.elevation(*rect), case, "elevation", rect=rect)
+    if not ok:
+        return dict(error=True, before=before)
+    lats, lons, E = res
     return dict(lats=lats, lons=lons, E=E, reads=list(env.reads), downloads=list(env.downloads), before=before)
 
 
 def check_elev(ck, env, rect, kind, out_lines=None, use_model=True):
     """real code + oracle; returns the pending model comparison (or None)"""
     case = case_of("elev", rect, kind=kind)
-    res = run_elev_real(env, rect)
+    res = run_elev_real(ck, env, rect, case)
     if "error" in res:
         ck.case(kind=f"elev/{kind}/error")
-        ck.violation(classify(case), f"elevation raised {res['error']}", case)
         return None
     RC = oracle_elev(ck, rect, res["lats"], res["lons"], res["E"], case)
     reads = [r[:-4].lower() for r in res["reads"]]
@@ -321,8 +400,8 @@ def check_elev(ck, env, rect, kind, out_lines=None, use_model=True):
                 if max(R[0], (90 - a1) * 120) <= min(R[-1] + 1, (90 - a0) * 120)
                 and max(C[0], (o0 + 180) * 120) <= min(C[-1] + 1, (o1 + 180) * 120)]
     if len(reads) != len(set(reads)):
-        ck.violation("other", f"a tile was read twice in one call: {reads}", case)
-    if [n for n in reads if n in need] != need:
+        ck.count("elev/tile-read-twice(diagnostic)")
+    if not set(need) <= set(reads):          # as sets: the order of the reads is not part of the property
         ck.violation("other", f"tiles read {reads}, needed {need}", case)
     extra = [n for n in reads if n not in need]
     if any(n not in touching for n in extra):
@@ -330,8 +409,8 @@ def check_elev(ck, env, rect, kind, out_lines=None, use_model=True):
     elif extra:
         ck.count("elev/float-extra-tile-read(touching-border-only)")
     # download once: exactly the needed-or-read tiles that were not cached before, once each
-    want_dl = [n for n in reads if n not in res["before"]]
-    if res["downloads"] != want_dl:
+    want_dl = sorted({n for n in reads if n not in res["before"]})
+    if sorted(res["downloads"]) != want_dl:
         ck.violation("other", f"downloads {res['downloads']} but cache held {res['before']} and tiles read were {reads}", case)
     ntiles = len(need)
     key = (kind, ntiles, len(R), len(C), R[0] % 6000, C[0] % 4800)
@@ -362,9 +441,11 @@ def compare_elev(ck, pend, outs):
                        f"cols {pend['C'][0]}..{pend['C'][-1]}")
             continue
         mt = stl.split() if stl != "-" else []
-        if [n for n in pend["reads"] if n in mt] != mt or mt != pend["need"]:
+        if not set(mt) <= set(pend["reads"]) or sorted(mt) != sorted(pend["need"]):
             why.append(f"model tiles {mt} vs code reads {pend['reads']}")
             continue
+        if [n for n in pend["reads"] if n in mt] != mt:
+            ck.count("elev/tile-order-differs-from-model(diagnostic)")
         mE = np.array([int(x) for x in sE.split()], dtype=np.int64).reshape(len(mR), len(mC))
         if not np.array_equal(mE, np.asarray(pend["E"]).astype(np.int64)):
             why.append("model elevation array differs from the code's")
@@ -401,7 +482,8 @@ def gen_rect(rng):
     c = 1.0 / 120
     for _ in range(100):
         kind = rng.choice(["single", "single", "border_v", "border_h", "corner4", "corner4", "touch", "touch",
-                           "dateline_w", "dateline_e", "north", "south", "thin", "thin", "aligned", "k120", "ulp"])
+                           "dateline_w", "dateline_e", "north", "south", "thin", "thin", "aligned", "k120", "ulp",
+                           "micro", "micro", "row3", "col3"])
         lat_c = rng.uniform(-59.5, 89.5)
         lon_c = rng.uniform(-179.5, 179.5)
         hs = rng.choice([0.3, 1.0, 2.5, 8.0, 20.0])
@@ -427,7 +509,33 @@ def gen_rect(rng):
             styles = [rng.choice([st, st, "random"]) for _ in range(4)]
             if kind != "k120":
                 a, b, w1, w2 = (x + rng.choice([0, 0.0625, 0.125]) for x in (a, b, w1, w2))
+        if kind == "micro":
+            # extents of 1e-11 .. 1e-4 cell, away from / straddling a grid line (near-line double or exact line)
+            mode = rng.choice(["away", "straddle", "aligned8"])
+            if mode == "straddle":
+                lat_c, lon_c = round(lat_c * 120) / 120, round(lon_c * 120) / 120
+            elif mode == "aligned8":
+                lat_c, lon_c = round(lat_c * 8) / 8, round(lon_c * 8) / 8
+            else:
+                lat_c = (math.floor(lat_c * 120) + rng.uniform(0.1, 0.9)) / 120
+                lon_c = (math.floor(lon_c * 120) + rng.uniform(0.1, 0.9)) / 120
+            which = rng.choice(["lat", "lon", "both"])
+            if which in ("lat", "both"):
+                a = b = 10 ** rng.uniform(-11, -4) * c / 2
+            if which in ("lon", "both"):
+                w1 = w2 = 10 ** rng.uniform(-11, -4) * c / 2
         la0, la1, lo0, lo1 = lat_c - a, lat_c + b, lon_c - w1, lon_c + w2
+        if kind == "row3":      # three tiles in a row (six when the strip also crosses a horizontal border)
+            B = rng.choice([-140.0, -100.0, -60.0, -20.0, 20.0, 60.0, 100.0])
+            lo0, lo1 = B - rng.uniform(0.02, 3) * c, B + 40.0 + rng.uniform(0.02, 3) * c
+            if rng.random() < 0.3:
+                lat_c = rng.choice(BORDER_LATS)
+            la0, la1 = lat_c - rng.uniform(0.02, 1.2) * c, lat_c + rng.uniform(0.02, 1.2) * c
+        elif kind == "col3":    # three tiles in a column
+            la0, la1 = -10.0 - rng.uniform(0.02, 3) * c, 40.0 + rng.uniform(0.02, 3) * c
+            if rng.random() < 0.3:
+                lon_c = rng.choice(BORDER_LONS)
+            lo0, lo1 = lon_c - rng.uniform(0.02, 1.2) * c, lon_c + rng.uniform(0.02, 1.2) * c
         if kind == "touch":
             which = rng.choice(["n", "s", "w", "e", "nw", "se"])
             bl, bo = rng.choice(BORDER_LATS), rng.choice(BORDER_LONS)
@@ -453,6 +561,16 @@ def gen_rect(rng):
         lo1 = style_edge(rng, lo1, styles[3], -180.0, 180.0)
         # extents below 1e-4 cell next to a grid line are below what the double index division
         # resolves (see corpus/C20 witness `below-double-resolution`): not generated
+        if kind in ("row3", "col3"):
+            if la0 < la1 and lo0 < lo1 and -60 <= la0 and la1 <= 90 and -180 <= lo0 and lo1 <= 180:
+                return kind, (la0, lo0, la1, lo1)
+            continue
+        if kind == "micro":
+            # down to 1e-11 cell; extents below 1e-9 cell on a grid line may hit the KNOWN finding
+            if 0 < la1 - la0 < 46 * c and 0 < lo1 - lo0 < 46 * c and F(la1) - F(la0) >= CELL / 10 ** 11 \
+                    and F(lo1) - F(lo0) >= CELL / 10 ** 11:
+                return kind, (la0, lo0, la1, lo1)
+            continue
         if 1e-4 * c <= la1 - la0 < 46 * c and 1e-4 * c <= lo1 - lo0 < 46 * c:
             return kind, (la0, lo0, la1, lo1)
     return "single", (10.0, 10.0, 10.1, 10.1)
@@ -511,13 +629,18 @@ def aligned_edges(ck, env, use_model, sample=None):
         exp = {"lat_max": math.floor(e), "lat_min": math.ceil(e) - 1, "lon_min": math.floor(e), "lon_max": math.ceil(e) - 1}[role]
         exp0 = {"lat_max": e0, "lat_min": e0 - 1, "lon_min": e0, "lon_max": e0 - 1}[role]
         ck.case(key=(role, v) if var == 0 else None, kind=f"edge/{role}/{'aligned' if var == 0 else 'ulp'}")
+        if var != 0:
+            ck.extra_cov.setdefault("one_ulp_edges", {"explored": 0, "accepted_via_snap_block_misses_rectangle_by_1ulp": 0})["explored"] += 1
         if var == 0:
             if got != exp:
                 ck.violation("srtm-float-aligned-index",
                              f"aligned {role} = {v!r}: double index computation selects global {'row' if is_lat else 'col'} {got}, exact arithmetic {exp}", case)
         elif got != exp:
             if got == exp0:
+                # the block edge is the grid line although the rectangle reaches 1 ulp beyond it
                 ck.count("edge/snap(1ulp absorbed by the double division)")
+                st = ck.extra_cov.setdefault("one_ulp_edges", {"explored": 0, "accepted_via_snap_block_misses_rectangle_by_1ulp": 0})
+                st["accepted_via_snap_block_misses_rectangle_by_1ulp"] += 1
             else:
                 ck.violation("other", f"{role} = {v!r}: selects {got}, exact {exp}, snapped {exp0}", case)
         if o is not None:
@@ -575,17 +698,19 @@ def check_tiles(ck, env, n, use_model):
     pos = 0
     for style, rect, cands in jobs:
         case = case_of("tiles", rect, kind=style)
-        try:
-            got = list(env.S.get_tiles(*rect))
-        except Exception as e:
-            ck.violation("other", f"get_tiles raised {type(e).__name__}: {e}", case)
+        ok, got = guarded(ck, lambda: list(env.S.get_tiles(*rect)), case, "get_tiles")
+        if not ok:
             pos += len(cands)
             continue
         wants = [oracle_tiles(q) for q in cands]
         ck.case(key=("tiles", tuple(got), style) if len(got) > 1 else None, kind=f"tiles/{style}/{min(len(got), 5)}{'+' if len(got) > 5 else ''}",
                 sample={"rect": case["rect_dec"], "tiles": got[:6]})
-        if got != wants[0]:
-            if got in wants:
+        # the property says "names exactly the tiles": compared as SETS; order is a diagnostic only
+        sgot, swants = sorted(set(got)), [sorted(w) for w in wants]
+        if len(got) != len(set(got)):
+            ck.count("tiles/duplicate-names(diagnostic)")
+        if sgot != swants[0]:
+            if sgot in swants:
                 ck.count("tiles/snap")
             else:
                 ck.violation(classify(case), f"get_tiles{tuple(case['rect_dec'])} = {got}, tiles whose interior meets the rectangle: {wants[0]}", case)
@@ -593,8 +718,10 @@ def check_tiles(ck, env, n, use_model):
             ms = [([] if o == "-" else o.split()) for o in outs[pos:pos + len(cands)]]
             if ms != wants:
                 ck.disagree(f"get_tiles: model {ms[0]} vs exact oracle {wants[0]}", case)
-            if got not in ms:
+            if sgot not in [sorted(m) for m in ms]:
                 ck.disagree(f"get_tiles: model {ms[0]} vs code {got}", case)
+            elif got not in ms:
+                ck.count("tiles/order-differs-from-model(diagnostic)")
         pos += len(cands)
     for r in wraps:
         case = case_of("tiles-wrap", r)
@@ -603,7 +730,7 @@ def check_tiles(ck, env, n, use_model):
         if outs is not None:
             o = outs[pos]
             m = [] if o == "-" else o.split()
-            if m != got:
+            if sorted(m) != sorted(set(got)):
                 ck.disagree(f"get_tiles with longitudes in 180..360: model {m} vs code {got}", case)
         pos += 1
 
@@ -611,6 +738,10 @@ def check_tiles(ck, env, n, use_model):
 # ---------------------------------------------------------------- tile grids
 def check_tile_grids(ck, env, use_model):
     S = env.S
+    if (S._tile_height, S._tile_width, S._dlat, S._dlon) != (TH, TW, DL, 40.0 / 4800):
+        ck.violation("other", f"SRTM30 constants changed: height {S._tile_height}, width {S._tile_width}, dlat {S._dlat!r}, dlon {S._dlon!r}",
+                     dict(op="table"))
+        return
     real = [(t[0], t[1], t[2], t[3], t[4]) for t in S._tiles]
     if real != OWN:
         ck.violation("other", "SRTM30._tiles differs from the 27-tile table implied by the tile names", dict(op="table"))
@@ -655,7 +786,7 @@ def check_cache(ck, env, n, use_model):
         env.clear_cache()
         warm = rng.sample(names, rng.choice([0, 0, 1, 3, 8]))
         for w in warm:
-            open(os.path.join(env.dir, (w + ".dem").upper()), "wb").close()
+            env.make_file(w)
         pool = rng.sample(names, rng.randint(1, 6)) + warm[:2]
         reqs = [rng.choice(pool) for _ in range(rng.randint(1, 12))]
         env.downloads.clear()
@@ -665,19 +796,16 @@ def check_cache(ck, env, n, use_model):
         for k, r in enumerate(reqs):
             had = r in env.cached()
             nd = len(env.downloads)
-            try:
-                t = S.get_tile(r)
-            except Exception as e:
-                ck.violation("other", f"get_tile({r}) raised {type(e).__name__}: {e}", case)
-                ok = False
+            ok, t = guarded(ck, lambda: S.get_tile(r), case, f"get_tile({r})")
+            if not ok:
                 break
             fetched = len(env.downloads) > nd
             if fetched == had or (fetched and env.downloads[-1] != r) or len(env.downloads) - nd > 1:
                 ck.violation("other", f"request #{k} get_tile({r}): cached before = {had}, downloads during the call = {env.downloads[nd:]}", case)
                 ok = False
                 break
-            if getattr(t, "name", None) != r:
-                ck.violation("other", f"get_tile({r}) returned the data of {getattr(t, 'name', None)}", case)
+            if getattr(t, "name", None) != r or getattr(t, "shape", None) != (TH, TW):
+                ck.violation("other", f"get_tile({r}) returned the data of {getattr(t, 'name', None)} with shape {getattr(t, 'shape', None)}", case)
                 ok = False
                 break
         if not ok:
@@ -747,7 +875,7 @@ def run_corpus_case(ck, env, c, use_model):
         got = list(env.S.get_tiles(*rect))
         wants = [oracle_tiles(q) for q in rect_candidates(rect)]
         ck.case(kind="tiles/corpus")
-        if got not in wants:
+        if sorted(set(got)) not in [sorted(w) for w in wants]:
             ck.violation(classify(case), f"get_tiles{tuple(case['rect_dec'])} = {got}, tiles whose interior meets the rectangle: {wants[0]}", case)
         if use_model:
             o = ck.driver(["tiles " + " ".join(fs(x) for x in rect_candidates(rect)[0])])[0]
@@ -772,7 +900,7 @@ def run_corpus_case(ck, env, c, use_model):
         snapped = {"lat_max": round(e), "lat_min": round(e) - 1, "lon_min": round(e), "lon_max": round(e) - 1}[role]
         ck.case(kind="edge/corpus")
         got = None if not idx else (idx[0] if role in ("lat_max", "lon_min") else idx[-1])
-        if got != exp and not (abs(e - round(e)) < TOL and e != round(e) and got == snapped):
+        if got != exp and not (abs(e - round(e)) * CELL <= edge_tol(v, is_lat) and e != round(e) and got == snapped):
             ck.violation(classify(c, "aligned" if e == round(e) else ""), f"{role} = {v!r}: selects index {got}, exact {exp}", c)
 
 
@@ -795,7 +923,10 @@ def main():
     ck.anchors([("typhon/topography.py", "_do_overlap"), ("typhon/topography.py", "SRTM30.get_tiles"),
                 ("typhon/topography.py", "SRTM30.get_bounds"), ("typhon/topography.py", "SRTM30.get_grids"),
                 ("typhon/topography.py", "SRTM30.get_native_grids"), ("typhon/topography.py", "SRTM30.get_tile"),
-                ("typhon/topography.py", "SRTM30.elevation"), ("typhon/topography.py", "_get_data_path")])
+                ("typhon/topography.py", "SRTM30.elevation"), ("typhon/topography.py", "_get_data_path"),
+                ("typhon/topography.py", "SRTM30.download_tile"),
+                # the whole class: covers the class-level constants _tile_height/_tile_width/_dlat/_dlon and the _tiles table
+                ("typhon/topography.py", "SRTM30")])
     ck.build()
     use_model = os.path.exists(os.path.join(ck.pkgdir, ".lake/build/bin/drv_c20"))
     if not use_model:
@@ -804,9 +935,10 @@ def main():
     try:
         for name, c in vlib.load_corpus(PROP):
             run_corpus_case(ck, env, c, use_model)
-        check_tile_grids(ck, env, use_model)
+        guarded(ck, lambda: check_tile_grids(ck, env, use_model), dict(op="tgrid"), "get_grids / get_native_grids of a tile")
         full = ck.tier == "thorough" or ck.budget_factor > 1
-        aligned_edges(ck, env, use_model, sample=None if full else 300)
+        guarded(ck, lambda: aligned_edges(ck, env, use_model, sample=None if full else 300), dict(op="edges"),
+                "get_native_grids on an aligned edge")
         if full:
             ck.exhaustive = True
             ck.notes.append("exhaustive: every multiple of 0.125 deg in [-60,90] / [-180,180] as lat_max, lat_min, lon_min, lon_max, each also at +-1 ulp "
@@ -846,7 +978,7 @@ def replay(path):
             names = [t[0] for t in OWN]
             env.clear_cache()
             for w in c["warm"]:
-                open(os.path.join(env.dir, (w + ".dem").upper()), "wb").close()
+                env.make_file(w)
             env.downloads.clear()
             for r in c["requests"]:
                 env.S.get_tile(r)
